@@ -33,6 +33,13 @@ FirstBadRule(impl) ==
     LET wrong == {a \in Registered(impl) : IsAbs(G, a) /\ RuleOK(impl, a) # "ok"}
     IN IF wrong = {} THEN "ok" ELSE RuleOK(impl, CHOOSE a \in wrong : TRUE)
 
+RECURSIVE ZeroOnPath(_)
+ZeroOnPath(c) ==
+    LET p == Parent(G, c) IN
+    IF p = "" \/ ~Known(G, p) THEN FALSE
+    ELSE \/ (RawW(G, c) = 0 /\ \E sib \in Prods(G, p) : RawW(G, sib) > 0)
+         \/ ZeroOnPath(p)
+
 Clause(prev, ev) ==
     CASE ev.e = "weights" ->
            IF ev.exc # "" THEN "C19:extract-raises"
@@ -46,10 +53,15 @@ Clause(prev, ev) ==
            IF ev.exc # "" THEN "C19:chooser-raises"
            ELSE IF (\E i \in DOMAIN ev.ws : ev.ws[i] > 0) /\ ev.ws[ev.chosen] = 0 THEN "C19:zero-weight-chosen"
            ELSE "ok"
+      \* a class occurs in a program built by a weight-aware machine although it - or an abstract type on the way to
+      \* it - was declared with weight zero next to a sibling of positive weight
+      [] ev.e = "prog" ->
+           IF \E i \in DOMAIN ev.classes : Known(G, ev.classes[i]) /\ ZeroOnPath(ev.classes[i]) THEN "C19:zero-weight-chosen" ELSE "ok"
       [] OTHER -> "ok"
 
 Attrs(prev, ev) ==
     CASE ev.e = "weights" -> <<IF ev.exc # "" THEN ev.exc ELSE "extraction-" \o ToString(ev.k), Cfg.considered>>
+      [] ev.e = "prog" -> <<ev.machine, "whole-program">>
       [] ev.e = "choose" -> <<ev.chooser, IF ev.exc # "" THEN ev.exc ELSE IF ev.chosen = 1 THEN "first-option" ELSE "other-option">>
       [] OTHER -> <<>>
 
